@@ -3,6 +3,7 @@ package checks
 import (
 	"fmt"
 	"math/rand"
+	"sort"
 
 	"verifharness/internal/gram"
 	"verifharness/internal/run"
@@ -15,14 +16,30 @@ type GCase struct {
 	NT  int
 	Pos int
 	Fam string
+	// MemoExpr: sub-expressions additionally wrapped in Memoize (nil: none). Memoize is supposed to be
+	// transparent wherever it is put, so the properties must hold with extra memoization as well.
+	MemoExpr map[int]bool
+}
+
+func (c GCase) memoIDs() []int {
+	var ids []int
+	for id := range c.MemoExpr {
+		ids = append(ids, id)
+	}
+	sort.Ints(ids)
+	return ids
 }
 
 func (c GCase) Key() string {
-	return fmt.Sprintf("%s|%q|N%d@%d", c.G.String(), c.In, c.NT, c.Pos)
+	return fmt.Sprintf("%s|%q|N%d@%d|%v", c.G.String(), c.In, c.NT, c.Pos, c.memoIDs())
 }
 
 func (c GCase) Describe() map[string]any {
-	return map[string]any{"grammar": c.G.String(), "input": c.In, "entry": fmt.Sprintf("N%d", c.NT), "offset": c.Pos, "family": c.Fam}
+	d := map[string]any{"grammar": c.G.String(), "input": c.In, "entry": fmt.Sprintf("N%d", c.NT), "offset": c.Pos, "family": c.Fam}
+	if len(c.MemoExpr) > 0 {
+		d["extra_memoized_expression_ids"] = c.memoIDs()
+	}
+	return d
 }
 
 // gramCases enumerates the cases of a job. The list is a pure function of the job.
@@ -43,6 +60,27 @@ func gramCases(j run.Job, yield func(c GCase)) {
 				o.Alpha = "ab\n"
 			}
 			g := gram.Random(r, o)
+			fam := "random"
+			// only recursive nonterminals have to be memoized: leave some of the others plain
+			rec := g.RecursiveNTs()
+			for i := range g.NTs {
+				if !rec[i] && r.Intn(2) == 0 {
+					g.Memo[i] = false
+				}
+			}
+			// extra Memoize wrappers around arbitrary sub-expressions in a quarter of the grammars
+			var memoExpr map[int]bool
+			if j.Param("memoexpr", 1) == 1 && r.Intn(4) == 0 {
+				memoExpr = map[int]bool{}
+				for _, b := range g.NTs {
+					gram.Walk(b, func(e *gram.Expr) {
+						if e.Op != gram.OpNT && r.Intn(3) == 0 {
+							memoExpr[e.ID] = true
+						}
+					})
+				}
+				fam = "random+memo"
+			}
 			for ii := 0; ii < inputs; ii++ {
 				nt := r.Intn(len(g.NTs))
 				in := g.RandomInput(r, nt, maxLen, 50)
@@ -50,7 +88,7 @@ func gramCases(j run.Job, yield func(c GCase)) {
 				if len(in) > 0 && r.Intn(4) == 0 {
 					pos = r.Intn(len(in) + 1)
 				}
-				yield(GCase{G: g, In: in, NT: nt, Pos: pos, Fam: "random"})
+				yield(GCase{G: g, In: in, NT: nt, Pos: pos, Fam: fam, MemoExpr: memoExpr})
 			}
 		}
 	case "mutual":
